@@ -28,7 +28,7 @@ UNITS = {
     'shred_fill': {'template': 'units/shred_fill/unit.rs', 'serves': ['C13', 'C12', 'C11'], 'min_verified': 36},
     'lthash': {'template': 'units/lthash/unit.rs', 'serves': ['C20'], 'min_verified': 19},
     'vshreds': {'template': 'units/vshreds/unit.rs', 'serves': ['C11', 'C10'], 'min_verified': 10},
-    'slot_state': {'template': 'units/slot_state/unit.rs', 'serves': ['C03', 'C04', 'C06'], 'min_verified': 107},
+    'slot_state': {'template': 'units/slot_state/unit.rs', 'serves': ['C03', 'C04', 'C06'], 'min_verified': 111},
 }
 
 # property -> what decides it
